@@ -45,6 +45,16 @@ Proof.
   vm_compute. repeat split; try reflexivity; discriminate.
 Qed.
 
+(* the same finding, equality: the two occurrences of ONE wall time (Europe/Paris 1996-10-27 02:00 +02:00 and, one hour later, 02:00 +01:00)
+   share the tzinfo object and compare equal on the wall clock, so the pure-Python precise_diff returns all zeros through its
+   `d1 == d2` shortcut; the compiled helper has no such shortcut and reports the hour *)
+Definition w_paris_1996_0200_first := mkpdt 1996 10 27 2 0 0 0 7200 true 1 1 true.
+Definition w_paris_1996_0200_second := mkpdt 1996 10 27 2 0 0 0 3600 true 1 1 true.
+Lemma same_wall_two_occurrences_refuted_lemma : exists a b,
+  p_instant b - p_instant a = 3600 * 1000000 /\
+  diff_comps false a b = Ok (mkcomp 0 0 0 0 0 0 0, false) /\ diff_comps true a b = Ok (mkcomp 0 0 0 0 1 0 0, false).
+Proof. exists w_paris_1996_0200_first, w_paris_1996_0200_second. vm_compute. repeat split; reflexivity. Qed.
+
 (* ---- finding rs-cross-zone-shift: one second elapsed; pure Python: 1 second; compiled: 1 hour -59 minutes 1 second *)
 Lemma diff_rs_cross_zone_refuted_lemma : exists a b,
   p_instant b - p_instant a = 1000000 /\
